@@ -1,6 +1,6 @@
 """C12 -- projection views (element_transformed, static/const_array_cast, as_const, member_cast,
-reinterpret_array_cast<U>() and <U>(n), arrays constructed from them).
-Proof: coq/Properties/Properties_C12.v (model coq/Model/ProjectC12.v on Layout.v/View.v).
+reinterpret_array_cast<U>() and <U>(n), arrays constructed from them), on views with any index bases.
+Proof: coq/Properties/Properties_C12.v (model coq/Model/ProjectC12{Based,,Walk}.v on Layout.v/View.v).
 Tie: harness/h_project.cpp vs the extracted model (ocaml/c12_driver.ml): per program step the shape of the
 view, per index the value and the byte offset of &proj[idx] from the root's data, words of the root
 modified by writes through the projection, and the array constructed from the projection."""
@@ -287,6 +287,84 @@ def value_category_table(prog_text, obs_text):
     return {k: dict(sorted(v.items())) for k, v in sorted(table.items())}
 
 
+EXT_RE = re.compile(r" ext=(\S*) ")
+
+
+def receiver_base_table(prog_text, obs_text):
+    """(projection kind) -> (receiver kind + rank class of the source) -> how many applications in this run had a source
+    whose non-empty dimensions have some NEGATIVE first index / only positive ones / all zero, and how many had a non-zero
+    first index in the LEADING dimension.  Counted from the programs actually run (corpus + generated) and the
+    extensions the library itself reported for the source view (S line of the preceding step)."""
+    names = {"l": "lvalue(&)", "c": "const(const&)", "r": "xvalue(&&,std::move)", "t": "prvalue(&&,temporary)"}
+    shape = {}
+    for line in obs_text.splitlines():
+        m = S_RE.match(line)
+        if m:
+            x = EXT_RE.search(line)
+            exts = []
+            if x and x.group(1):
+                for e in x.group(1).split(","):
+                    a, b = e.rsplit(":", 1)
+                    exts.append((int(a), int(b)))
+            shape[(m.group(1), int(m.group(2)))] = (int(m.group(5)), exts)
+    table = {}
+    for cid, block in core.split_cases(prog_text):
+        step = 0
+        for ln in block.splitlines():
+            t = ln.split()
+            if not t or t[0] not in ("op", "proj"):
+                continue
+            step += 1
+            if t[0] != "proj" or (cid, step) not in shape or (cid, step - 1) not in shape:
+                continue
+            k = t[1]
+            cat, kind = (k[0], k[2:]) if k[:2] in ("c_", "r_", "t_") else ("l", k)
+            rank, exts = shape[(cid, step - 1)]
+            firsts = [f for f, l in exts if l > f]
+            cls = "negative" if any(f < 0 for f in firsts) else ("positive" if any(f > 0 for f in firsts) else "zero")
+            lead = bool(exts) and exts[0][1] > exts[0][0] and exts[0][0] != 0
+            cell = table.setdefault(kind, {}).setdefault("%s %s" % (names[cat], "D=1" if rank == 1 else "D>=2"),
+                                                         {"negative": 0, "positive": 0, "zero": 0, "leading_nonzero": 0})
+            cell[cls] += 1
+            cell["leading_nonzero"] += 1 if lead else 0
+    return {k: dict(sorted(v.items())) for k, v in sorted(table.items())}
+
+
+# Which overload of array_ref.hpp each receiver kind of a projection reaches (line numbers of /repo at 9e89822).
+# D>=2 = const_subarray<T,D> / subarray<T,D> (:1020, :1914); D=1 = the specialisation const_subarray<T,1> (:2711) for the
+# const members, the generic subarray<T,D> for the & / && ones.  named = the view is an lvalue; c_ = through const&;
+# r_ = std::move(view); t_ = the temporary returned by view().
+PROJECTION_OVERLOADS = {
+    "static_array_cast<T const>() [static]": {
+        "D>=2": {"named": "& :1711", "c_": "const& :1693 (constrained on a const target)", "r_ t_": "&& :1706",
+                 "not called": "const& to a non-const target :1701 (deprecated: casts constness away)"},
+        "D=1": {"named c_ r_ t_": "static_array_cast() const :3228 (one overload)"}},
+    "element_transformed(f) [tval tmem tref]": {
+        "D>=2": {"named": "& :1735", "c_ (tval)": "const& :1723", "r_ t_": "&& :1745 -> & :1735", "all": "static_array_cast_ :1717"},
+        "D=1": {"named": "& :3249", "c_ (tval)": "const& :3237", "r_ t_": "&& :3259 -> & :3249", "all": "static_array_cast(args...) const :3232"},
+        "not reachable": "c_tmem (a further transform_ptr type, not instantiated in the harness), c_tref (f takes S&)"},
+    "member_cast [member_a/b/c member_re/im, inside blas::real/imag]": {
+        "D>=2": {"named": "& :1766", "c_": "const& :1752", "r_ t_": "&& :1780 -> & :1766"},
+        "D=1": {"named c_ r_ t_": "member_cast(PM) const :3266 (one overload)"}},
+    "const_array_cast() / as_const() [constcast asconst]": {
+        "D>=2": {"named c_ r_ t_": "const_array_cast() const :1802, as_const() const :1810 (one overload each)"},
+        "D=1": {"-": "the members do not exist in const_subarray<T,1>"}},
+    "reinterpret_array_cast<U>() [reint_R/Q/I/C/D up_Q, inside blas::real/imag]": {
+        "D>=2": {"named": "subarray & :2278", "c_": "const_subarray const& :1828 (aux :1816, then as_const())", "r_ t_": "subarray && :2289"},
+        "D=1": {"named": "subarray & :2278 (generic, through scale)", "c_": "const_subarray<T,1> const& :3287 (layout written out by hand)",
+                "r_ t_": "subarray && :2289 (generic, through scale)"},
+        "D=0": {"-": "const_subarray<T,0>::reinterpret_array_cast() const& :2683: not exercised"}},
+    "reinterpret_array_cast<U>(n) [reintn_I/D/R, inside blas::real_doubled]": {
+        "D>=2": {"named": "subarray & :2311", "c_": "const_subarray const& :1839 (both if-constexpr branches build the same layout; raw pointers take the first)",
+                 "r_ t_": "subarray && :2324"},
+        "D=1": {"named": "subarray & :2311 (layout_t<2>(..).rotate())", "c_": "const_subarray<T,1> const& :3297 (subarray{layout_t<2>{..}}.rotated())",
+                "r_ t_": "subarray && :2324"}},
+    "blas::real / imag / real_doubled [zreal zimag zdoubled] (adaptors/blas/numeric.hpp :48 :56 :63)": {
+        "any rank": {"named r_ t_": "std::forward<A>(array).reinterpret_array_cast<complex_dummy>().member_cast(..) / reinterpret_array_cast<double>(2)...",
+                     "c_": "does not compile for a const source (member_cast of the const view returned by the first cast): not called"}},
+}
+
+
 # Which constructor / assignment of array.hpp a conversion kind reaches (source form + value category, how,
 # convertibility class of the target).  Line numbers of /repo/include/boost/multi/array.hpp at the pinned commit; the
 # map was verified with an instrumented copy of array.hpp (notes/c12_overload_coverage.py prints, per kind, the
@@ -436,11 +514,13 @@ def vm_crosscheck(prog_text, obs_text, limit=200):
     """Returns (number of cases checked, list of disagreeing case ids, log)."""
     obs = core.by_case(obs_text)
     defs, ids = [], []
-    for cid, block in core.split_cases(prog_text):
+    # evenly spaced over the first 40 000 cases (corpus files + generated cases), so that every corpus and the
+    # generated programs contribute -- in particular projections of re-based sources
+    pool = [(c, b) for c, b in core.split_cases(prog_text)[:40000] if "\nmutate" not in b and "tval" not in b and "\nproj " in b]
+    stride = max(1, len(pool) // (4 * limit))
+    for cid, block in pool[::stride]:
         if len(ids) >= limit:
             break
-        if "\nmutate" in block or "tval" in block:
-            continue
         steps, root, off, nstep = [], None, 0, 0
         try:
             for ln in block.splitlines():
@@ -481,7 +561,7 @@ def vm_crosscheck(prog_text, obs_text, limit=200):
     src = os.path.join(d, "cases_C12.v")
     with open(src, "w") as f:
         f.write("From Coq Require Import ZArith List Bool.\nImport ListNotations.\nLocal Open Scope Z_scope.\n"
-                "From BM Require Import Model.Layout Model.View Model.ProjectC12.\n"
+                "From BM Require Import Model.Layout Model.View Model.ProjectC12Based Model.ProjectC12.\n"
                 "Definition st (s : op + proj) (x : pview) : pview := match s with inl o => p_exec_op o x | inr p => p_exec_proj p x end.\n"
                 "Definition zl_eqb (a b : list Z) : bool := if list_eq_dec Z.eq_dec a b then true else false.\n"
                 "Definition chk (steps : list (op + proj)) (root : list range) (probes : list (list Z)) (expect sizes : list Z) : bool :=\n"
@@ -532,14 +612,18 @@ def build_c12_harness(flags, extra=(), tag="", timeout=1500):
     key = hashlib.sha256((core.include_hash() + core.tree_hash(srcs + common) + " ".join(macros) + " ".join(extra)).encode()).hexdigest()[:16]
     exe = os.path.join(core.BIN, "%s%s-%s" % (HARNESS, tag, key))
     if os.path.exists(exe):
+        os.utime(exe, None)
         return True, exe, "cached"
     os.makedirs(core.BIN, exist_ok=True)
-    for f in os.listdir(core.BIN):
-        if f.startswith(HARNESS + tag + "-"):
-            try:
-                os.remove(os.path.join(core.BIN, f))
-            except OSError:
-                pass
+    # keep the three most recently used binaries of other library trees (a seed / mutation run alternates between the
+    # tree under test and /repo for the replays); older ones are removed
+    old = sorted((f for f in os.listdir(core.BIN) if f.startswith(HARNESS + tag + "-")),
+                 key=lambda f: os.path.getmtime(os.path.join(core.BIN, f)), reverse=True)
+    for f in old[3:]:
+        try:
+            os.remove(os.path.join(core.BIN, f))
+        except OSError:
+            pass
     objdir = os.path.join(core.BUILD, "work", PID, "obj" + tag)
     os.makedirs(objdir, exist_ok=True)
     base = ["g++", "-std=c++17", "-O1", "-g0", "-I" + core.INCLUDE, "-I" + os.path.join(core.VERIF, "harness")] + macros + list(extra)
@@ -721,21 +805,26 @@ def run(tier, seed, replay=None):
                                            "discharged": coq["discharged"]})
         res.violation(path, "proof obligations no longer check", no_input=True)
     conv_kinds, conv_overloads = conversion_tables(dist)
+    for key in [k for k in dist if k.startswith("srcbase:")]:
+        dist.pop(key)          # summarised, for corpus + generated cases, by projection_receiver_base_table
     cases = core.split_cases(prog_text)
     samples = [b for _c, b in cases[n_corpus:n_corpus + 600] if b.count("\nop ") >= 3 and "\nproj " in b][:3]
     res.coverage.update({
         "evaluations": len(cases),
         "distinct_nontrivial": distinct_nontrivial(prog_text),
         "rule": "random projection programs: root of struct{int a;int b;double c;} (73%%) or std::complex<double> (27%%), rank 1..4, "
-                "extents 1..6 (18%% of cases force extents 0/1); 45%% of the roots are built over extensions with non-zero first "
-                "indices (each dimension's base drawn from -3..3, 70%% non-zero) and then reindexed / blocked / reindexed(i,j,..) "
-                "are in the operation alphabet; 0..%s C01/C19 view operations drawn among those whose documented "
+                "extents 1..6 (18%% of cases force extents 0/1); 55%% of the roots are built over extensions with non-zero first "
+                "indices (each dimension's base drawn from -3..3, 70%% non-zero); reindexed(i in -3..3) / blocked / reindexed(i,j,..) "
+                "are in the operation alphabet of those cases and of a third of the others; 0..%s C01/C19 view operations drawn among those whose documented "
                 "domain (dom_op of the model) holds; 1 or 2 projections (member_cast a/b/c, reinterpret_array_cast<U>() to "
                 "same-size / half-size / quarter-size U, reinterpret_array_cast<U>(n), static_array_cast, as_const, "
                 "const_array_cast, element_transformed by value / member pointer / reference-returning functor, "
-                "blas::real/imag/real_doubled; on sources with a non-zero index base only those the library's assertions admit, "
-                "p_dom_proj_based of the model), each called on a named view (35%%), through const& (20%%, where the library has "
-                "a const overload), on std::move(view) (25%%) or on the temporary view() (20%%); after each projection 0..%s further view operations; probes = all valid index "
+                "blas::real/imag/real_doubled; every one of them on sources of ANY index bases -- negative, zero, positive, in any "
+                "dimension: based roots, reindexed, blocked, rows and rotated views of them -- whenever p_dom_proj of the model holds "
+                "(= the static_asserts of the cast and both assertions inside layout_t::scale)), each called on a named view (35%%), "
+                "through const& (20%%, where the library has a const overload), on std::move(view) (25%%) or on the temporary view() "
+                "(20%%): see projection_overload_map and projection_receiver_base_table; extensions (first and last index of every "
+                "dimension), sizes, strides compared after every step; after each projection 0..%s further view operations; probes = all valid index "
                 "tuples when <= 12 else both corners + 6 random; iterator walks (after 60%% of the projections, 35%% of the later "
                 "operations, 0..2 at the end): leading iterators of the view or of a row, the flat elements() iterators (mutable or "
                 "const, started at begin() or end(), 3..8 tokens among ++ -- it++ it-- += -= + - it[k] *reverse_iterator(it) "
@@ -754,6 +843,8 @@ def run(tier, seed, replay=None):
         "samples": samples,
         "generator_distribution": dist,
         "projection_value_category_table": value_category_table(prog_text, obs_text),
+        "projection_receiver_base_table": receiver_base_table(prog_text, obs_text),
+        "projection_overload_map": PROJECTION_OVERLOADS,
         "conversion_kind_table": conv_kinds,
         "conversion_overload_table": conv_overloads,
         "iterator_walk_lines": len(re.findall(r"^I ", obs_text, re.M)),
@@ -769,8 +860,11 @@ def run(tier, seed, replay=None):
         "compile_probes": {n: ("compiles" if flags.get(n) else "does not compile") for n in sorted(flags)},
         "not_exercised": ["as_const()/const_array_cast() on rank-1 views (members do not exist in the D=1 class at this commit)",
                           "reinterpret_array_cast on rank-0 views", "custom (non-raw, non-transform_ptr) pointer types: C11",
-                          "member_cast, reinterpret_array_cast<U>(n) and reinterpret_array_cast<U>() (except on a const rank-1 view) "
-                          "on views with a non-zero offset in some dimension: layout_t::scale asserts offset_ == 0 (layout.hpp:987)",
+                          "const& receivers of element_transformed(&S::b) / (reference-returning f) and of blas::real / imag / "
+                          "real_doubled (a further transform_ptr type not instantiated in the harness; f needs S&; blas::real(const view) "
+                          "does not compile); the deprecated static_array_cast const& overload to a non-const target (:1701)",
+                          "the second branch of `if constexpr(std::is_pointer_v<ElementPtr>)` in reinterpret_array_cast<U>(n) const& "
+                          "(array_ref.hpp:1855): projections are applied to raw-pointer views only (C11 for other pointer types)",
                           "diagonal() on views whose first two index bases are not 0 (known finding KF-C19-diagonal-rebased)",
                           "taked() for D > 1 (does not compile)",
                           "each of the following only when its compile probe succeeds (see compile_probes): post-projection "
